@@ -215,7 +215,8 @@ pub fn parse_docs(attrs: &[Attribute]) -> Result<String> {
             Expr::Lit(ExprLit {
                 lit: Lit::Str(ref str),
                 ..
-            }) => Ok(str.value()),
+            // `*/` would end the JSDoc comment early, so it is escaped
+            }) => Ok(str.value().replace("*/", "*\\/")),
             _ => syn_err!(attr.span(); "doc  with non literal expression found"),
         })
         .collect::<Result<Vec<_>>>()?;
